@@ -407,11 +407,11 @@ _CONSTRAINTS = [
     ("unimodality", [True, {0: True}]),
     ("normalize", [True, {2: True}]),
     ("simplex", [1.0, {0: 1.0}, [1.0, 1.0, 1.0, 1.0], [1.0]]),
-    ("normalized_sparsity", [2, {1: 2}, [2, 2, 2, 2], [2]]),
+    ("normalized_sparsity", [2, {1: 2}, [2, 2, 2, 2], [2], 40]),
     ("soft_sparsity", [1.0, {0: 1.0}, [1.0, 1.0, 1.0, 1.0], [1.0]]),
     ("smoothness", [0.1, {1: 0.1}, [0.1, 0.1, 0.1, 0.1], [0.1]]),
     ("monotonicity", [True, {0: True}]),
-    ("hard_sparsity", [2, {2: 2}, [2, 2, 2, 2], [2, 2]]),
+    ("hard_sparsity", [2, {2: 2}, [2, 2, 2, 2], [2, 2], 40]),
 ]  # lists shorter than the number of modes are rejected by the library (IndexError): calls that raise are in scope too
 
 
@@ -898,10 +898,12 @@ def e_skr(g):
     mats = [g.arr((g.choice([3, 4]), 2), rs=rs) for _ in range(n)]
     kw = dict(matrices=mats if form == "list" else tuple(mats), n_samples=g.choice([4, 2]), random_state=g.seed())
     g.opt(kw, "skip_matrix", [0, 1], 0.3)
-    g.opt(kw, "return_sampled_rows", [True], 0.4)
-    if g.flag(0.2):
+    g.opt(kw, "return_sampled_rows", [True], 0.5)
+    if g.flag(0.45):
         k = len(mats) - (1 if "skip_matrix" in kw else 0)
-        kw["indices_list"] = [[0, 1, 2, 0][: kw["n_samples"]] for _ in range(k)]
+        base = g.choice([[0, 1, 2, 0], [0, -1, 2, -2], [1, 1, 0, -1]])[: kw["n_samples"]]
+        form = g.choice(["list", "array", "tuple"])
+        kw["indices_list"] = [np.array(base) if form == "array" else (tuple(base) if form == "tuple" else list(base)) for _ in range(k)]
     return dict(fn=D.sample_khatri_rao, kwargs=kw)
 
 
@@ -985,7 +987,7 @@ def e_admm(g):
         kw["n_const"] = 1
         kw["order"] = 0
         name, menu = g.choice(_CONSTRAINTS)
-        v = menu[0]
+        v = g.choice([m for m in menu if not isinstance(m, (list, dict))])
         kw[name] = [v] if g.flag() else {0: v}
         if g.flag(0.2):
             kw["n_const"] = 2  # the one-element list is then shorter than n_const
@@ -1012,6 +1014,11 @@ def e_prw(g):
 _PROX = [
     ("soft_thresholding", dict(threshold=0.2)),
     ("hard_thresholding", dict(number_of_non_zero=3)),
+    ("hard_thresholding", dict(number_of_non_zero=40)),  # at least as many as there are entries
+    ("normalized_sparsity_prox", dict(threshold=40)),
+    ("soft_thresholding", dict(threshold=0.0)),
+    ("simplex_prox", dict(parameter=100.0)),
+    ("soft_sparsity_prox", dict(threshold=100.0)),
     ("l2_prox", dict(regularizer=0.3)),
     ("l2_square_prox", dict(regularizer=0.3)),
     ("simplex_prox", dict(parameter=1.0)),
@@ -1044,7 +1051,7 @@ def e_proxop(g):
     import tensorly.tenalg.proximal as P
 
     name, menu = g.choice(_CONSTRAINTS)
-    v = menu[0]
+    v = g.choice([m for m in menu if not isinstance(m, (list, dict))])
     form = g.choice(["scalar", "list", "dict", "shortlist"])
     order = g.choice([0, 1])
     if form == "list":
